@@ -92,6 +92,17 @@ class Priv:
     name: str
     _rev: int = 0
 
+class PrivPlain:
+    """a plain annotated class with an underscore-led field its constructor accepts"""
+    name: str
+    _token: str
+    def __init__(self, name: str, _token: str = "none"):
+        self.name, self._token = name, _token
+    def __eq__(self, o):
+        return type(o) is type(self) and vars(o) == vars(self)
+    def __repr__(self):
+        return f"PrivPlain({self.name!r}, {self._token!r})"
+
 @dataclasses.dataclass
 class Wide:
     x: int
@@ -184,6 +195,8 @@ TYPES = {
     "Literal[1]": ("typing.Literal[1]", ["1", "True"], ["1", "True", "1.0", "'1'"]),
     # a field the generic item iteration skips on the way out but accepts on the way in
     "Priv": ("Priv", ["Priv('a', 5)", "Priv('b')"], ["{'name': 'a', '_rev': '5'}", "{'name': 'b'}", "'{\"name\": \"a\", \"_rev\": 7}'", "[('name', 'c'), ('_rev', 9)]"]),
+    "PrivPlain": ("PrivPlain", ["PrivPlain('a', 's3cr3t')", "PrivPlain('b')"], ["{'name': 'a', '_token': 's3cr3t'}", "{'name': 'b'}", "'{\"name\": \"a\", \"_token\": 7}'", "PrivPlain('c', 't')"]),
+    "list[PrivPlain]": ("list[PrivPlain]", ["[PrivPlain('a', 's')]"], ["[{'name': 'a', '_token': 'x'}]"]),
     # a class and its subclass that adds fields: whichever is used first must not decide what the other yields
     "BaseRec": ("BaseRec", ["BaseRec(1)"], ["{'a': '1'}", "BaseRec(2)", "SubRec(3, 'y', [1])"]),
     "SubRec": ("SubRec", ["SubRec(1, 'y', [2])", "SubRec(2)"], ["{'a': '1', 'b': 2, 'c': ['3']}", "SubRec(4, 'z', [5])"]),
